@@ -170,6 +170,18 @@ class Extractor:
             return pre + [{"n": "atom", "dir": "w", "w": W_WIDTH[m], "signed": m.startswith("write_i"), "val": n["args"][0], "line": n.get("line")}]
         if tr == RTRAIT and m in R_WIDTH:
             return pre + [{"n": "atom", "dir": "r", "w": R_WIDTH[m], "signed": m.startswith("read_i"), "id": self.new_id(), "line": n.get("line"), "node": id(n)}]
+        m_into = re.fullmatch(r"read_([ui])(16|32|64|128)_into", m) if tr == RTRAIT else None
+        if m_into and n["args"]:
+            # `reader.read_i32_into::<BigEndian>(&mut buf)` with `buf: [i32; N]`: N reads of that width, element i of buf
+            tgt = hirq.strip_wrappers(n["args"][0])
+            mt = re.fullmatch(r"\[[ui](?:16|32|64|128); (\d+)\]", str(tgt.get("ty") or "").replace("&mut ", "").strip())
+            if tgt.get("k") == "path" and tgt.get("res") == "local" and mt:
+                return pre + [{"n": "atom", "dir": "r", "w": int(m_into.group(2)) // 8, "signed": m_into.group(1) == "i", "id": self.new_id(), "line": n.get("line"),
+                               "arr": (tgt.get("lid"), i)} for i in range(int(mt.group(1)))]
+        if tr in (WTRAIT, RTRAIT) and (m.startswith("read_") or m.startswith("write_")):
+            # a byteorder transfer the extractor has no width for (read_i32_into, read_uint, write_uint, ...): it moves
+            # bytes, so the layout of this body is not decidable -- say so instead of extracting a layout without them
+            return pre + [{"n": "prim", "kind": "byteorder::%s(..)" % m, "dir": "w" if m.startswith("write_") else "r", "args": [n["recv"]] + list(n["args"]), "id": self.new_id(), "line": n.get("line"), "node": id(n)}]
         if tr == "std::io::Write" and m == "write_all":
             return pre + [{"n": "bytes", "dir": "w", "val": n["args"][0], "line": n.get("line")}]
         if tr == "std::io::Read" and m == "read_exact":
